@@ -35,7 +35,17 @@ var c06Pool = []refmodel.RouteDef{
 	{Path: "/a/{x}", Methods: []string{"GET", "HEAD"}},
 	// the same literal text and variable name as the routes above, another variable regex
 	{Path: "/a/{x:[a-z]+}", Methods: []string{"POST"}},
+	// (outside the enumerated pool, used by the dotted tables only:) several dots in the literal text around a variable
+	{Path: "/v1.0/{x}.json", Methods: []string{"GET"}},
+	{Path: "/v1.0/{x}.json", Methods: []string{"PUT", "DELETE"}},
+	{Path: "/v1.0/x.y.z{x}", Methods: []string{"POST"}},
 }
+
+// the enumeration of tables runs over the first c06Enum pool entries
+const c06Enum = 15
+
+// requests for the dotted tables: variable values of one byte, of two bytes and empty
+var c06DotPaths = []string{"/v1.0/7.json", "/v1.0/42.json", "/v1.0/.json", "/v1.0/7.jso", "/v1.0/7", "/v1.0", "/v1.0/x.y.z7", "/v1.0/x.y.z", "/v1.0/x.y.z77"}
 
 // two pool entries may not share a table when they would register the same static method+path twice
 func c06Conflict(a, b int) bool {
@@ -86,6 +96,10 @@ type c06Case struct {
 	// Mounted: the requests arrive on a FRONT router (no routes; its NotFound handler hands the context to this router
 	// with HandleContext); this router's own NotFound / NotAllowed handlers answer its unmatched requests
 	Mounted bool `json:"behind_a_front_router,omitempty"`
+	// UseMany > 0: that many pass-through global middleware are installed (chains of more than 63 handlers)
+	UseMany int `json:"global_middleware_count,omitempty"`
+	// Dotted: the requests are c06DotPaths (the table holds routes with several dots in their literal text)
+	Dotted bool `json:"dotted_paths,omitempty"`
 }
 
 func c06Gen(tier string, emit func(c06Case)) {
@@ -96,11 +110,28 @@ func c06Gen(tier string, emit func(c06Case)) {
 			}
 		}
 	}
+	// routes with several dots in their literal text, alone, together and next to a catch-all, under every option subset
+	for _, t := range [][]int{{15}, {15, 16}, {15, 7}, {7, 15}, {15, 16, 7}, {17}, {15, 17}, {17, 16, 8}} {
+		for o := 0; o < 16; o++ {
+			emit(c06Case{Routes: t, NotAllowed: o&1 != 0, Fallback: o&2 != 0, Strict: o&4 != 0, Cache: o&8 != 0, Dotted: true})
+			emit(c06Case{Routes: t, NotAllowed: o&1 != 0, Fallback: o&2 != 0, Strict: o&4 != 0, Cache: o&8 != 0, Dotted: true, CustomNF: true, CustomNA: true})
+		}
+	}
+	// long chains of global middleware in front of the routes and of the not-found / not-allowed responders
+	for _, t := range [][]int{{}, {0}, {2, 3}, {0, 1, 7}, {13, 12}} {
+		for o := 0; o < 16; o++ {
+			for _, many := range []int{61, 62, 63, 64, 70} {
+				for h := 0; h < 4; h += 3 {
+					emit(c06Case{Routes: t, NotAllowed: o&1 != 0, Fallback: o&2 != 0, Strict: o&4 != 0, Cache: o&8 != 0, UseMany: many, CustomNF: h != 0, CustomNA: h != 0})
+				}
+			}
+		}
+	}
 	maxK := 2
 	if tier == "thorough" {
 		maxK = 3
 	}
-	n := len(c06Pool)
+	n := c06Enum
 	var tables [][]int
 	tables = append(tables, []int{})
 	var rec func(cur []int)
@@ -233,6 +264,13 @@ func c06Run(c c06Case, st *fw.Stats) []fw.Viol {
 	if c.UseAfter {
 		r.Use(func(ctx *rux.Context) { ctx.Next() })
 	}
+	for i := 0; i < c.UseMany; i++ {
+		if i%2 == 0 {
+			r.Use(func(ctx *rux.Context) {})
+		} else {
+			r.Use(func(ctx *rux.Context) { ctx.Next() })
+		}
+	}
 	var entry http.Handler = r
 	hops := 0
 	if c.Mounted {
@@ -248,6 +286,9 @@ func c06Run(c c06Case, st *fw.Stats) []fw.Viol {
 		entry = front
 	}
 	cfg := func() string {
+		if c.UseMany > 0 {
+			return fmt.Sprintf("table [%s] options{notAllowed=%v fallback=%v strict=%v cache=%v customNF=%v customNA=%v} (%d pass-through global middleware installed)", defsString(defs), c.NotAllowed, c.Fallback, c.Strict, c.Cache, c.CustomNF, c.CustomNA, c.UseMany)
+		}
 		if c.Mounted {
 			return fmt.Sprintf("table [%s] options{notAllowed=%v fallback=%v strict=%v cache=%v customNF=%v customNA=%v} (requests arrive on a front router whose NotFound handler forwards them with HandleContext)", defsString(defs), c.NotAllowed, c.Fallback, c.Strict, c.Cache, c.CustomNF, c.CustomNA)
 		}
@@ -268,6 +309,9 @@ func c06Run(c c06Case, st *fw.Stats) []fw.Viol {
 	// two rounds; inside a round all methods are tried on one path before the next path, so that
 	// every method is requested after every other method on the same path (cache history matters)
 	paths := c06Paths
+	if c.Dotted {
+		paths = c06DotPaths
+	}
 	if c.Long > 0 {
 		// (pool routes 2 and 3: GET /a/{x}; PUT+DELETE /a/{x})
 		paths = nil
@@ -428,7 +472,7 @@ func c06Run(c c06Case, st *fw.Stats) []fw.Viol {
 var c06Spec = fw.Spec[c06Case]{
 	ID:    "C06",
 	Level: "model_checking",
-	Rule: "complete product: ordered tables of <=K routes from a 15-route pool x 2^4 option subsets {HandleMethodNotAllowed,HandleFallbackRoute,StrictLastSlash,caching (capacity 1 or 64)} x 6 InterceptAll values (listed after and before the other options) (+ every table with its last 1 or 2 routes registered only after a first round of all requests) (+ every table registered through each of the 6 other registration APIs) (+ request paths of every length 20..319 bytes against a two-route table) (+ every table and option subset again, incl. six unclean path spellings, with a second router of the other StrictLastSlash setting serving every request first) x {default,custom} NotFound x {default,custom} NotAllowed (the custom ones also followed by a later Router.Use, and with the requests arriving through a front router that forwards them with HandleContext); per configuration 10 methods x 8 paths, each request twice through Match and ServeHTTP, vs refmodel.Resolve; " +
+	Rule: "complete product: ordered tables of <=K routes from a 15-route pool x 2^4 option subsets {HandleMethodNotAllowed,HandleFallbackRoute,StrictLastSlash,caching (capacity 1 or 64)} x 6 InterceptAll values (listed after and before the other options) (+ every table with its last 1 or 2 routes registered only after a first round of all requests) (+ every table registered through each of the 6 other registration APIs) (+ request paths of every length 20..319 bytes against a two-route table) (+ every table and option subset again, incl. six unclean path spellings, with a second router of the other StrictLastSlash setting serving every request first) x {default,custom} NotFound x {default,custom} NotAllowed (the custom ones also followed by a later Router.Use, behind 61..70 pass-through global middleware, on 8 tables of routes with several dots in their literal text asked with one-byte / two-byte / empty variable values, and with the requests arriving through a front router that forwards them with HandleContext); per configuration 10 methods x 8 paths, each request twice through Match and ServeHTTP, vs refmodel.Resolve; " +
 		"non-trivial = a request that is not a direct match (HEAD->GET, fallback, 405, 404)",
 	Assume: []string{"routes, paths and option values come from the stated alphabets"},
 	Bounds: func(tier string) map[string]any {
@@ -436,7 +480,7 @@ var c06Spec = fw.Spec[c06Case]{
 		if tier == "thorough" {
 			k = 3
 		}
-		return map[string]any{"pool": len(c06Pool), "K": k, "options": 16, "intercepts": c06Intercepts, "methods": c06Methods, "paths": c06Paths}
+		return map[string]any{"pool": c06Enum, "K": k, "options": 16, "intercepts": c06Intercepts, "methods": c06Methods, "paths": c06Paths}
 	},
 	Gen:   c06Gen,
 	Run:   c06Run,
